@@ -548,6 +548,7 @@ pub fn check(tier: &str) -> i32 {
         (if x[3] == 0 { 0 } else { 0x8400 }, es)
     };
     let mk4b = mk4.clone();
+    let mk4c = mk4.clone();
     let m4 = FnPart {
         name: "M4-name-shapes-in-every-role".into(),
         rule: format!("{ns} names (the menu's plus literal dots / backslashes at the start, middle and end of a label, including the last label before the root dot) x role {{question, PTR owner, PTR target, SRV target}}, alone and followed by every second (name, role), as query and as response; all must read back exactly"),
@@ -562,6 +563,31 @@ pub fn check(tier: &str) -> i32 {
         }),
     };
     rep.run_part(&m4, Duration::from_secs(60));
+    if thorough {
+        // the same (name, role) alphabet in every sequence of up to three entries
+        let alpha: Vec<Entry> = (0..ns * 4)
+            .map(|j| mk4c(&[j / 4, j % 4, 0, 0]).1.remove(0))
+            .collect();
+        let am = alpha.len() as u64;
+        let per5 = count_seqs(am, 3);
+        let alpha2 = alpha.clone();
+        let m5 = FnPart {
+            name: "M5-name-shapes-up-to-three-entries".into(),
+            rule: format!("every sequence of <= 3 entries from the {am} (name shape, role) entries of M4, as query and as response; all must read back exactly"),
+            n: per5 * 2,
+            describe: Box::new(move |i| {
+                format!("flags={} entries={:?}", i / per5, seq_of(am, 3, i % per5).iter().map(|&j| &alpha2[j]).collect::<Vec<_>>())
+            }),
+            run: Box::new(move |i, _| {
+                let mut r = CaseResult { nontrivial: true, ..Default::default() };
+                let s = seq_of(am, 3, i % per5);
+                let es: Vec<&Entry> = s.iter().map(|&j| &alpha[j]).collect();
+                check_message(if i / per5 == 0 { 0 } else { 0x8400 }, &es, true, &mut r);
+                r
+            }),
+        };
+        rep.run_part(&m5, Duration::from_secs(300));
+    }
 
     // M2: overflow window
     let tails: Vec<Entry> = menu
